@@ -44,15 +44,28 @@ inline std::string zone_class(const zm::Model& m) {
 
 // Classes of zones covered by a recorded known finding (known_findings.json).
 // The class is decided from the *input* (the file), never from cctz's answer.
-inline std::string known_class(const zm::Model& m) {
+inline std::vector<std::string> known_classes(const zm::Model& m) {
+  std::vector<std::string> out;
   if (m.has_rule && !m.f.trans.empty()) {
     // R11: the 402-year rule table cctz generates after the last recorded transition ends before 1970
     const i128 last = m.f.trans.back().t;
     const i128 y0 = refcal::from_secs(last + m.lt_of(m.f.trans.back().type).utoff).y;
     i128 s, e; m.rule_transitions(y0 + 401, &s, &e);
-    if (std::max(s, e) < 0) return "rule_table_ends_before_epoch";
+    if (std::max(s, e) < 0) out.push_back("rule_table_ends_before_epoch");
   }
-  return "";
+  if (!m.f.trans.empty()) {
+    // R8b: two consecutive table entries whose local times are not increasing (an entry lies within the size of
+    // the following fall-back): cctz's civil-order validation rejects the whole file.  zic can produce this.
+    std::vector<zm::Change> ch = m.changes(m.f.trans.front().t, (i128)m.f.trans.back().t + (m.has_rule ? (i128)86400 * 800 : 0));
+    for (size_t i = 1; i < ch.size(); ++i)
+      if (ch[i].t + ch[i].after.utoff <= ch[i - 1].t + ch[i - 1].after.utoff) { out.push_back("civil_order_violation"); break; }
+  }
+  return out;
+}
+inline bool known_excluded(Ctx& c, const zm::Model& m) {
+  for (const std::string& kc : known_classes(m))
+    if (c.args->excluded(kc)) { c.ev->excl(kc); return true; }
+  return false;
 }
 
 inline void note_zone(Ctx& c, const zp::Zone& z) {
@@ -93,7 +106,7 @@ inline bool run_file_zone(Ctx& c, const ZoneProp& p, const std::string& path, co
   struct Unreg { std::string n; bool on; ~Unreg() { if (on) zp::unregister(n); } } unreg{z.load_name, kind == "zic"};
   if (!z.model.f.ok) { c.ev->cls("file_unreadable_by_model:" + z.model.f.err); return true; }
   if (!z.model.in_domain()) { c.ev->unspec("zone_outside_domain_" + kind); return true; }
-  { const std::string kc = known_class(z.model); if (!kc.empty() && c.args->excluded(kc)) { c.ev->excl(kc); return true; } }
+  if (known_excluded(c, z.model)) return true;
   note_zone(c, z);
   zp::Handle h = p.want_public_api ? zp::open_public(z.load_name) : zp::open_private(z.load_name);
   vf::Case fc; std::string why;
@@ -142,7 +155,7 @@ inline void run_all(Ctx& c, const ZoneProp& p, long w_quick, long w_thorough, bo
       RC_FAIL("harness: generated file unreadable by zonemodel: " + z.model.f.err);
     }
     if (!z.model.in_domain()) { c.ev->unspec("generated_zone_outside_domain"); RC_DISCARD("outside W"); }
-    { const std::string kc = known_class(z.model); if (!kc.empty() && c.args->excluded(kc)) { c.ev->excl(kc); RC_DISCARD("known finding class"); } }
+    if (known_excluded(c, z.model)) RC_DISCARD("known finding class");
     note_zone(c, z);
     zp::Handle h = (public_left-- > 0) ? zp::open_public(z.load_name) : zp::open_private(z.load_name);
     vf::Case fc; std::string why;
